@@ -4,7 +4,9 @@
 #include "harness.h"
 double my_exp2(double); double my_log2(double); double my_ceil(double); double my_pow(double, double); int64_t my_lround(double); int64_t my_llround(double); uint64_t my_strlen1(uint8_t* s);
 #include "prologue.h"
+#ifndef VF_CAP
 #define VF_CAP 200
+#endif
 #include "vfile.h"
 #include "libm.h"
 #include "gds_read.h"
@@ -32,7 +34,7 @@ int main(void) {
   struct S_struct_tm tmv = {0}; tmv.f5 = 100; tmv.f4 = 1; tmv.f3 = 2; tmv.f2 = 3; tmv.f1 = 4; tmv.f0 = 5;
   Lib lib = {0}; uint8_t lname[2] = {'L', 0}; lib.f0 = lname; lib.f1 = 1e-9; lib.f2 = 1e-9;
   Cell cA = {0}, cD = {0}; uint8_t nA[2] = {'A', 0}, nD[2] = {'D', 0}; cA.f0 = nA; cD.f0 = nD; Cell* cells[2] = {&cA, &cD};
-  lib.f3.f0 = 2; lib.f3.f1 = (ELEM == 2 ? 2 : 1); lib.f3.f2 = (void*)cells;
+  lib.f3.f0 = 2; lib.f3.f1 = ((ELEM == 2 || ELEM == 3) ? 2 : 1); lib.f3.f2 = (void*)cells;
   Poly poly = {0}; Poly* pa[1] = {&poly}; double pts[6]; Label lab = {0}; Label* la[1] = {&lab}; uint8_t txt[2] = {0, 0}; Ref ref = {0}; Ref* ra[1] = {&ref};
   int refl = 0;
 #if ELEM == 0          /* one polygon */
@@ -48,6 +50,22 @@ int main(void) {
   refl = REFL;
   ref.f0 = 0; *(Cell**)&ref.f1 = &cD; VXD(ref.f2) = (double)x[0]; VYD(ref.f2) = (double)y[0]; ref.f3 = 0.0; ref.f4 = WITH_MAG ? 0.5 : 1.0; ref.f5 = (uint8_t)refl;
   cA.f2.f0 = 1; cA.f2.f1 = 1; cA.f2.f2 = (void*)ra;
+#elif ELEM == 3        /* SEQUENCES: cell A = polygon, label with magnification 2 and reflection, plain label, reference with magnification 0.5 and reflection, plain
+                          reference; cell D = one polygon. What one element carries must not leak into the next, in the writer or in the reader. */
+  uint16_t layer2 = (uint16_t)nd_range(0, 32767), dtype2 = (uint16_t)nd_range(0, 32767); int32_t x2[3], y2[3]; for (int i = 0; i < 3; i++) { x2[i] = (int32_t)nd_range(-CR, CR); y2[i] = (int32_t)nd_range(-CR, CR); }
+  ASSUME(!(x[0] == x[2] && y[0] == y[2]) && !(x2[0] == x2[2] && y2[0] == y2[2]));
+  for (int i = 0; i < 3; i++) { pts[2 * i] = (double)x[i]; pts[2 * i + 1] = (double)y[i]; }
+  poly.f0 = TAG(layer, dtype); poly.f1.f0 = 3; poly.f1.f1 = 3; poly.f1.f2 = (void*)pts; cA.f1.f0 = 1; cA.f1.f1 = 1; cA.f1.f2 = (void*)pa;
+  Label lab1 = {0}; uint8_t txt1[2] = {'u', 0}; Label* la2[2] = {&lab, &lab1}; txt[0] = 't';
+  lab.f0 = TAG(layer, dtype); lab.f1 = txt; VXD(lab.f2) = (double)x[0]; VYD(lab.f2) = (double)y[0]; lab.f3 = 5; lab.f5 = 2.0; lab.f6 = 1;
+  lab1.f0 = TAG(layer2, dtype2); lab1.f1 = txt1; VXD(lab1.f2) = (double)x[1]; VYD(lab1.f2) = (double)y[1]; lab1.f3 = 0; lab1.f5 = 1.0; lab1.f6 = 0;
+  cA.f5.f0 = 2; cA.f5.f1 = 2; cA.f5.f2 = (void*)la2;
+  Ref ref1 = {0}; Ref* ra2[2] = {&ref, &ref1};
+  ref.f0 = 0; *(Cell**)&ref.f1 = &cD; VXD(ref.f2) = (double)x[2]; VYD(ref.f2) = (double)y[2]; ref.f4 = 0.5; ref.f5 = 1;
+  ref1.f0 = 0; *(Cell**)&ref1.f1 = &cD; VXD(ref1.f2) = (double)x2[0]; VYD(ref1.f2) = (double)y2[0]; ref1.f4 = 1.0; ref1.f5 = 0;
+  cA.f2.f0 = 2; cA.f2.f1 = 2; cA.f2.f2 = (void*)ra2;
+  Poly polyD = {0}; Poly* pd[1] = {&polyD}; double ptsD[6]; for (int i = 0; i < 3; i++) { ptsD[2 * i] = (double)x2[i]; ptsD[2 * i + 1] = (double)y2[i]; }
+  polyD.f0 = TAG(layer2, dtype2); polyD.f1.f0 = 3; polyD.f1.f1 = 3; polyD.f1.f2 = (void*)ptsD; cD.f1.f0 = 1; cD.f1.f1 = 1; cD.f1.f2 = (void*)pd;
 #endif
   uint8_t fname[2] = {'f', 0}, gname[2] = {'g', 0};
   uint32_t werr = WRITE_GDS(&lib, fname, 0, &tmv);
@@ -106,6 +124,16 @@ int main(void) {
   { CHECK(c->f2.f1 == 1, "one reference"); Ref* r = ((Ref**)c->f2.f2)[0];
     CHECK(r->f0 == 0 && *(Cell**)&r->f1 == lib_cell(&out, 1) && lib_cell(&out, 1)->f0[0] == 'D', "target resolved");
     CHECK(VXD(r->f2) == VXD(ref.f2) && VYD(r->f2) == VYD(ref.f2) && r->f3 == 0.0 && r->f4 == ref.f4 && (r->f5 & 1) == refl && r->f6.f0 == 0, "placement"); }
+#elif ELEM == 3
+  { Cell* d = lib_cell(&out, 1); CHECK(d->f0[0] == 'D' && c->f1.f1 == 1 && c->f5.f1 == 2 && c->f2.f1 == 2 && d->f1.f1 == 1 && d->f5.f1 == 0 && d->f2.f1 == 0, "element counts per cell");
+    Poly* p = ((Poly**)c->f1.f2)[0]; double* q = (double*)p->f1.f2; CHECK(p->f0 == poly.f0 && p->f1.f1 == 3, "polygon of A"); for (int i = 0; i < 6; i++) CHECK(q[i] == pts[i], "vertices of A's polygon");
+    Poly* p2 = ((Poly**)d->f1.f2)[0]; double* q2 = (double*)p2->f1.f2; CHECK(p2->f0 == polyD.f0 && p2->f1.f1 == 3, "polygon of D"); for (int i = 0; i < 6; i++) CHECK(q2[i] == ptsD[i], "vertices of D's polygon");
+    Label* l0 = ((Label**)c->f5.f2)[0]; Label* l1 = ((Label**)c->f5.f2)[1];
+    CHECK(l0->f0 == lab.f0 && l0->f1[0] == 't' && VXD(l0->f2) == VXD(lab.f2) && VYD(l0->f2) == VYD(lab.f2) && l0->f3 == 5 && l0->f5 == 2.0 && (l0->f6 & 1) == 1 && l0->f4 == 0.0, "first label");
+    CHECK(l1->f0 == lab1.f0 && l1->f1[0] == 'u' && VXD(l1->f2) == VXD(lab1.f2) && VYD(l1->f2) == VYD(lab1.f2) && l1->f3 == 0 && l1->f5 == 1.0 && (l1->f6 & 1) == 0 && l1->f4 == 0.0, "second label: its own (default) magnification, reflection and anchor");
+    Ref* r0 = ((Ref**)c->f2.f2)[0]; Ref* r1 = ((Ref**)c->f2.f2)[1];
+    CHECK(r0->f0 == 0 && *(Cell**)&r0->f1 == d && VXD(r0->f2) == VXD(ref.f2) && VYD(r0->f2) == VYD(ref.f2) && r0->f4 == 0.5 && (r0->f5 & 1) == 1 && r0->f3 == 0.0, "first reference");
+    CHECK(r1->f0 == 0 && *(Cell**)&r1->f1 == d && VXD(r1->f2) == VXD(ref1.f2) && VYD(r1->f2) == VYD(ref1.f2) && r1->f4 == 1.0 && (r1->f5 & 1) == 0 && r1->f3 == 0.0 && r1->f6.f0 == 0, "second reference: its own (default) magnification and reflection"); }
 #endif
 #endif
 #if PHASE == 3
